@@ -255,6 +255,8 @@ func propC13(c *Ctx, r *Report) {
 	r.Clauses = append(r.Clauses, "marks cleared, marks restored (E81): a pass driver that runs a phase clearing liveness marks runs afterwards a marking from the statements that stay (a function reaching the statement-root marker)")
 	c.runUnmarkRemarked(r, "unmark.remarked", inPkgs("dxil/internal/passes", "ir"))
 	r.floor("unmark.remarked", 1)
+	r.Clauses = append(r.Clauses, sharedAddrClause)
+	c.runSharedAddr(r, "ptr.sharedaddr", inPkgs("ir", "dxil"))
 	r.Clauses = append(r.Clauses, shallowWalkerClause)
 	c.runShallowWalker(r, "walker.shallow", inPkgs("ir", "dxil"), shallowWalkerExceptions)
 	r.floor("walker.shallow", 10)
